@@ -45,7 +45,8 @@ def gen(rng, tier, ctx):
 def witnesses():
     cl = lambda name, parent, fields: {"name": name, "parent": parent, "fields": fields}
     f = lambda n, k, t=None: {"name": n, "kind": k, "target": t}
-    return {"hierarchy-reference-mapped-one-to-many": {"seed": 5, "n": 30, "spec": {
+    return {"alt-mapped-object-in-cycle-left-as-mapping": {"handwritten": True, "seed": 1, "n": 60},
+            "hierarchy-reference-mapped-one-to-many": {"seed": 5, "n": 30, "spec": {
         "module": "rw_node", "order": ["K0", "K1"], "profile": "rt", "classes": [
             cl("K0", None, [f("uid", "int"), f("f0_0", "self_opt", "K0")]), cl("K1", "K0", [f("f1_0", "int")])]}}}
 
